@@ -152,7 +152,7 @@ func (m *monitor) lens(size int, stream string) []int {
 			add(l)
 		}
 	} else {
-		for i := 0; i < 64; i++ {
+		for i := 0; i < m.r.Pick(48, 64); i++ {
 			add(i)
 			add(size - i)
 		}
@@ -557,6 +557,9 @@ func (m *monitor) runStates() {
 		for _, mode := range []string{"first", "over-same", "over-diff"} {
 			if mode == "over-same" && size == 0 {
 				continue // there is only one value of size 0
+			}
+			if mode == "over-same" && !r.Thorough() && size != 1 && size != 100 && size != 4096 && size != 70000 {
+				continue // quick tier: same-size overwrites for four sizes only
 			}
 			sc, err := m.mkScenario(size, mode, filepath.Join(base, "tmpl"))
 			if err != nil {
